@@ -95,7 +95,9 @@ func main() {
 				return
 			}
 			steps++
-			tr.Emit(hx.M{"op": "step", "p": i + 1, "at": p.Point})
+			if steps <= 600 || p.Point == "la.setstart" || p.Point == "la.reset" { // a spinning goroutine must not flood the trace
+				tr.Emit(hx.M{"op": "step", "p": i + 1, "at": p.Point})
+			}
 			sc.Step(p)
 		}
 		tick := func() {
@@ -119,7 +121,7 @@ func main() {
 			for i := range procs {
 				step(i)
 			}
-			if steps > 20000 {
+			if steps > 5000 {
 				stuck = true
 			}
 		}
